@@ -4,6 +4,7 @@ turns candidate counter-models into concrete inputs, replays them on the real fu
 and classifies every obligation as discharged / refuted(confirmed) / undecided.
 """
 import importlib
+import ast
 import json
 import multiprocessing as mp
 import os
@@ -59,9 +60,10 @@ def to_py(v, st):
     return v
 
 
-def concrete_run(contract, registry, kwargs):
+def concrete_run(contract, registry, kwargs, case=None):
     """Interpret the real source with the engine on concrete arguments.
-    -> dict(outcome='return'|'raise', value=..., ghosts={...})"""
+    -> dict(outcome='return'|'raise', value=..., ghosts={...}, cut=bool)
+    With a cut point (contract.stop_after / case.stop_after) the run ends there: `cut` is True and outcome / value are those of the cut."""
     modname, qual = contract.func.split(":")
     node, src, path = V.find_def_dotted(modname, qual)
     glob = V._glob_for(modname)
@@ -70,6 +72,7 @@ def concrete_run(contract, registry, kwargs):
     eng = V.VEngine(registry, contract.func + "[concrete]", c2)
     eng.ghost_hooks = contract.ghosts
     eng.concrete_fallback = True
+    eng.stop_after = (getattr(case, "stop_after", None) if case is not None else None) or contract.stop_after
     import ast as _ast
 
     fors = sorted((n for n in _ast.walk(node) if isinstance(n, _ast.For)), key=lambda n: (n.lineno, n.col_offset))
@@ -103,9 +106,10 @@ def concrete_run(contract, registry, kwargs):
             ghosts[k] = to_py(v, s)
         except Unsupported:
             pass
+    cut = bool(eng.stop_after and eng.stop_fired)
     if kind == "raise":
-        return {"outcome": "raise", "value": val.kind, "ghosts": ghosts}
-    return {"outcome": "return", "value": to_py(val if kind == "return" else None, s), "ghosts": ghosts}
+        return {"outcome": "raise", "value": val.kind, "ghosts": ghosts, "cut": cut}
+    return {"outcome": "return", "value": None if cut else to_py(val if kind == "return" else None, s), "ghosts": ghosts, "cut": cut}
 
 
 def lift_py(v, st):
@@ -130,8 +134,22 @@ def lift_py(v, st):
     return v
 
 
+def _pair(orig, cp, out):
+    """identity map copy -> original for the containers reachable from the arguments"""
+    if isinstance(orig, (dict, list, tuple)) or hasattr(orig, "__dict__"):
+        out[id(cp)] = orig
+    if isinstance(orig, dict):
+        for k in orig:
+            if k in cp:
+                _pair(orig[k], cp[k], out)
+    elif isinstance(orig, (list, tuple)):
+        for a, b in zip(orig, cp):
+            _pair(a, b, out)
+
+
 def real_call(contract, kwargs):
-    """call the real function under CPython (deep-copying mutable arguments)"""
+    """call the real function under CPython (deep-copying mutable arguments); `old` is the deep snapshot of what was passed,
+    `args_after` the passed objects in their post-state, `orig_of` maps id(snapshot object) -> the passed object (for `is`)"""
     import copy
 
     modname, qual = contract.func.split(":")
@@ -140,20 +158,51 @@ def real_call(contract, kwargs):
     for part in qual.split("."):
         obj = getattr(obj, part)
     kw = copy.deepcopy(kwargs)
+    old = copy.deepcopy(kw)
+    orig_of = {"__keep": (kw, old)}
+    _pair(kw, old, orig_of)
     try:
-        return {"outcome": "return", "value": obj(**kw), "args_after": kw}
+        return {"outcome": "return", "value": obj(**kw), "args_after": kw, "old": old, "orig_of": orig_of}
     except Exception as e:  # noqa
-        return {"outcome": "raise", "value": type(e).__name__, "msg": str(e)[:200], "args_after": kw}
+        return {"outcome": "raise", "value": type(e).__name__, "msg": str(e)[:200], "args_after": kw, "old": old, "orig_of": orig_of,
+                "mro": [c.__name__ for c in type(e).__mro__]}
 
 
-def eval_clause_py(contract, clause_text, kwargs, result, ghosts):
+class _IsRewrite(ast.NodeTransformer):
+    def visit_Compare(self, node):
+        self.generic_visit(node)
+        if len(node.ops) == 1 and isinstance(node.ops[0], (ast.Is, ast.IsNot)):
+            call = ast.Call(ast.Name("__same_object", ast.Load()), [node.left, node.comparators[0]], [])
+            return ast.UnaryOp(ast.Not(), call) if isinstance(node.ops[0], ast.IsNot) else call
+        return node
+
+
+def eval_clause_py(contract, clause_text, kwargs, result, ghosts, real=None):
+    """evaluate a clause under CPython.  With `real` (the record of real_call) parameters denote the passed objects in their
+    post-state, old_<p> their deep snapshots, and `is` treats a snapshot object and the passed object it was taken from as the same"""
     env = dict(specfuncs.PY_GLOBALS)
     env.update(kwargs)
+    code = clause_text
+    if real is not None and real.get("old") is not None:
+        env.update({k: v for k, v in real["args_after"].items()})
+        env.update({"old_" + k: v for k, v in real["old"].items()})
+        oo = real["orig_of"]
+
+        def same_object(a, b):
+            if a is b:
+                return True
+            oa, ob = oo.get(id(a)), oo.get(id(b))
+            return (oa is not None and oa is b) or (ob is not None and ob is a)
+
+        env["__same_object"] = same_object
+        if " is " in clause_text:
+            tree = ast.fix_missing_locations(_IsRewrite().visit(ast.parse(clause_text, mode="eval")))
+            code = compile(tree, "<clause>", "eval")
     env.update(ghosts)
     env["result"] = result
     for dname, dtext in contract.defs.items():
         env[dname] = eval(dtext, env)
-    return bool(eval(clause_text, env))
+    return bool(eval(code, env))
 
 
 def same_value(a, b):
@@ -277,6 +326,50 @@ def run_case(args):
     return out
 
 
+def _show(v):
+    return ast.dump(v) if isinstance(v, ast.AST) else repr(v)
+
+
+class _NoConcrete(Exception):
+    pass
+
+
+_DEFAULT_OF = {"str": "", "int": 0, "bool": False}
+
+
+def concretize(spec, name, vals, top=True):
+    """the concrete Python value of a parameter spec under a counter-model (mirrors verify.make_value's naming); nested values the model
+    leaves open take the type's zero value; AST node specs become real ast nodes"""
+    if isinstance(spec, str) and spec in ("str", "int", "bool"):
+        v = vals.get(name)
+        return v if (v is not None or top) else _DEFAULT_OF[spec]
+    if isinstance(spec, tuple) and spec:
+        tag = spec[0]
+        if tag == "lit":
+            return spec[1]
+        if tag == "tuple":
+            return tuple(concretize(sp, "%s_%d" % (name, i), vals, False) for i, sp in enumerate(spec[1]))
+        if tag == "list":
+            return [concretize(sp, "%s_%d" % (name, i), vals, False) for i, sp in enumerate(spec[1])]
+        if tag == "dict":
+            d = {}
+            for k, vs in spec[1].items():
+                opt = isinstance(vs, tuple) and vs and vs[0] == "opt"
+                if opt and vals.get("%s.has.%s" % (name, k)) is False:
+                    continue
+                d[k] = concretize(vs[1] if opt else vs, "%s_%s" % (name, k), vals, False)
+            return d
+        if tag == "node" and isinstance(spec[1], str) and spec[1].startswith("ast."):
+            node = getattr(ast, spec[1][4:])()
+            for k, vs in spec[2].items():
+                setattr(node, k, concretize(vs, "%s_%s" % (name, k), vals, False))
+            return node
+        raise _NoConcrete(tag)
+    if isinstance(spec, str) and (spec.startswith("pred") or spec == "obj"):
+        raise _NoConcrete(spec)
+    return spec
+
+
 def try_replay(contract, registry, case, ob):
     """Turn counter-models into inputs, run engine-concrete and the real function, evaluate the clause."""
     builder = getattr(contract, "witness", None)
@@ -285,48 +378,11 @@ def try_replay(contract, registry, case, ob):
         kwargs_list = []
         base = {}
         for pname, spec in case.params.items():
-            if isinstance(spec, str) and spec in ("str", "int", "bool"):
-                base[pname] = vals.get(pname)
-            elif isinstance(spec, tuple) and spec and spec[0] == "dict":
-                d = {}
-                for k, vs in spec[1].items():
-                    opt = isinstance(vs, tuple) and vs and vs[0] == "opt"
-                    if opt and vals.get("%s.has.%s" % (pname, k)) is False:
-                        continue
-                    inner = vs[1] if opt else vs
-                    if isinstance(inner, str) and inner in ("str", "int", "bool"):
-                        d[k] = vals.get("%s_%s" % (pname, k))
-                    elif isinstance(inner, tuple) and inner[0] == "lit":
-                        d[k] = inner[1]
-                    else:
-                        d[k] = inner
-                base[pname] = d
-            elif isinstance(spec, tuple) and spec and spec[0] == "tuple":
-                items = []
-                for i, sp in enumerate(spec[1]):
-                    nm = "%s_%d" % (pname, i)
-                    if isinstance(sp, str) and sp in ("str", "int", "bool"):
-                        items.append(vals.get(nm))
-                    elif isinstance(sp, tuple) and sp[0] == "dict":
-                        d = {}
-                        for k, vs in sp[1].items():
-                            opt = isinstance(vs, tuple) and vs and vs[0] == "opt"
-                            if opt and vals.get("%s.has.%s" % (nm, k)) is False:
-                                continue
-                            inner = vs[1] if opt else vs
-                            d[k] = vals.get("%s_%s" % (nm, k)) if isinstance(inner, str) and inner in ("str", "int", "bool") else (inner[1] if isinstance(inner, tuple) and inner[0] == "lit" else inner)
-                        items.append(d)
-                    else:
-                        items.append(sp)
-                base[pname] = tuple(items)
-            elif isinstance(spec, tuple) and spec and spec[0] == "lit":
-                base[pname] = spec[1]
-            elif (isinstance(spec, str) and (spec.startswith("pred") or spec == "obj")) or (
-                    isinstance(spec, tuple) and spec and spec[0] in ("node", "obj", "list", "native", "const")):
-                base = None  # no concrete counterpart of an opaque / structured symbolic argument: no replay from the model
+            try:
+                base[pname] = concretize(spec, pname, vals)
+            except _NoConcrete:
+                base = None  # no concrete counterpart of an opaque symbolic argument: no replay from the model
                 break
-            else:
-                base[pname] = spec
         if base is not None and all(v is not None or case.params.get(k) is None for k, v in base.items()):
             kwargs_list.append(base)
         if builder is not None:
@@ -337,7 +393,7 @@ def try_replay(contract, registry, case, ob):
                 pass
         for kw in kwargs_list:
             r = replay_one(contract, registry, case, ob, kw)
-            tried.append({k: repr(v)[:80] for k, v in kw.items()})
+            tried.append({k: _show(v)[:80] for k, v in kw.items()})
             if r.get("confirmed") or r.get("engine_mismatch"):
                 return r
     return {"confirmed": False, "tried": tried[:4]}
@@ -346,11 +402,12 @@ def try_replay(contract, registry, case, ob):
 def replay_one(contract, registry, case, ob, kwargs):
     real = real_call(contract, kwargs)
     try:
-        conc = concrete_run(contract, registry, kwargs)
+        conc = concrete_run(contract, registry, kwargs, case)
     except Unsupported as e:
         conc = None
-    res = {"kwargs": {k: repr(v) for k, v in kwargs.items()}, "real": {"outcome": real["outcome"], "value": repr(real["value"])[:300]}}
-    if conc is not None:
+    res = {"kwargs": {k: _show(v) for k, v in kwargs.items()}, "real": {"outcome": real["outcome"], "value": repr(real["value"])[:300]}}
+    cut = bool(conc and conc.get("cut"))
+    if conc is not None and not cut:
         ok_same = conc["outcome"] == real["outcome"] and (
             same_value(conc["value"], real["value"]) if conc["outcome"] == "return" else conc["value"] == real["value"]
         )
@@ -359,14 +416,14 @@ def replay_one(contract, registry, case, ob, kwargs):
             return res
     ghosts = conc["ghosts"] if conc else {}
     if ob.kind == "post":
-        if real["outcome"] != "return":
-            return res
+        if real["outcome"] != "return" and not (cut and not V._re_word("result", ob.note)):
+            return res  # (a clause of a cut-point contract that does not mention `result` speaks about the state at the cut: decided from the ghosts)
         # requires must hold on the concrete input
         try:
             for txt in list(contract.requires) + list(case.assume):
                 if not eval_clause_py(contract, txt, kwargs, None, ghosts):
                     return res
-            holds = eval_clause_py(contract, ob.note, kwargs, real["value"], ghosts)
+            holds = eval_clause_py(contract, ob.note, kwargs, real["value"], ghosts, real=real)
         except Exception as e:  # noqa
             res["eval_error"] = "%s: %s" % (type(e).__name__, e)
             return res
@@ -375,7 +432,7 @@ def replay_one(contract, registry, case, ob, kwargs):
             res["clause"] = ob.note
     elif ob.kind in ("safety", "raises"):
         if real["outcome"] == "raise" and (ob.kind != "safety" or ob.extra.get("exc") in (None, real["value"])):
-            allowed = contract.raises.get(real["value"])
+            allowed = next((contract.raises[n] for n in real.get("mro", [real["value"]]) if n in contract.raises), None)
             if allowed is None:
                 res["confirmed"] = True
                 res["clause"] = "must not raise %s" % real["value"]
